@@ -269,6 +269,17 @@ class CallGraph:
     def field_writes(self, f):
         """[(field qual, base repr, node, bid, idx)] written directly in f (ctor inits included)"""
         out = []
+        # reference locals bound to a data member are names of that member: `auto& left = limit_; left--;` writes limit_
+        alias = {}
+        for bid, i, e in f.all_elems():
+            x = e.get("expr")
+            if isinstance(x, dict) and x.get("k") == "decl":
+                for v in x.get("vars", []):
+                    t = (v.get("type") or "").rstrip()
+                    if (v.get("ref") or t.endswith("&")) and not t.startswith("const ") and v.get("init") is not None:
+                        kind0, key0, _ = lvalue_root(v["init"])
+                        if kind0.split(":")[-1] == "field":
+                            alias[v["name"]] = key0
         for bid, i, e in f.all_elems():
             if e["kind"] == "init" and e.get("field"):
                 out.append((e["field"], "this", e, bid, i, "init"))
@@ -280,6 +291,8 @@ class CallGraph:
                     base_kind = kind.split(":")[-1]
                     if base_kind == "field":
                         out.append((key[0], key[1], n, bid, i, eff))
+                    elif base_kind == "local" and key in alias and eff == "write" and not key.startswith("__") and not (isinstance(n, dict) and n.get("k") == "decl"):
+                        out.append((alias[key][0], alias[key][1], n, bid, i, eff))
         return out
 
     def static_writes(self, f):
